@@ -319,3 +319,60 @@ def segment_image(img, rng, cuts=(), max_rec=9000, order="shuffle", holes=True, 
     recs = stale_recs + keep
     assert rearrange(recs, n)[:n] == bytes(img) and all(p + len(d) <= n for p, d in recs)
     return recs
+
+
+# ---------------------------------------------------------------- Xen domain dump (xc_core in ELF), C19
+def xc_page(idx, pfn, ps=4096, be=False):
+    """Content of the idx-th stored page: the 16-byte tag (idx, pfn) repeated."""
+    return struct.pack("<QQ", idx & M64, pfn & M64) * (ps // 16)
+
+
+def write_xc_core(path, entries, p2m=True, ps=4096, be=False, machine="x86_64", map_off=0x1000,
+                  sect_order=None, pad_entries=0, note_name=b".note.Xen"):
+    """entries: list of (pfn, mfn) (mfn ignored for the pfn-only layout).  The page list section
+    (.xen_p2m: 16-byte (pfn, gmfn) records; .xen_pfn: 8-byte pfn records) is put at file offset
+    `map_off` (>= 0x800, any alignment), `.xen_pages` on the next page boundary after it.
+    `sect_order` permutes the four payload section headers (default note, map, pages).
+    `pad_entries` trailing bytes (< record size) are added to the section size (ignored by the reader).
+    `note_name`: the library takes the page size from the DUMPCORE_HEADER note only if the note is
+    named ".note.Xen"; with the name "Xen" the header note is ignored and the architecture default applies.
+    Returns dict(pages_off=, map_off=)."""
+    E = ">" if be else "<"
+    n = len(entries)
+    entsz = 16 if p2m else 8
+    assert map_off >= 0x800
+    strtab = b"\0.shstrtab\0.note.Xen\0.xen_pages\0.xen_p2m\0.xen_pfn\0"
+    name = {k: strtab.index(b"\0" + k.encode() + b"\0") + 1 for k in (".shstrtab", ".note.Xen", ".xen_pages", ".xen_p2m", ".xen_pfn")}
+    map_size = n * entsz + pad_entries
+    pages_off = (map_off + map_size + ps - 1) // ps * ps
+    if pages_off == 0:
+        pages_off = ps
+    desc = struct.pack(E + "QQQQ", 0xf00febed if p2m else 0xf00febee, 1, n, ps)
+    nn = note_name + b"\0"
+    note = struct.pack(E + "III", len(nn), len(desc), 0x2000001) + nn + b"\0" * (-len(nn) % 4) + desc
+    def shdr(nm, typ, off, size):
+        return struct.pack(E + "IIQQQQIIQQ", nm, typ, 0, 0, off, size, 0, 0, 0, 0)
+    payload = [shdr(name[".note.Xen"], 7, 0x400, len(note)),
+               shdr(name[".xen_p2m" if p2m else ".xen_pfn"], 1, map_off, map_size),
+               shdr(name[".xen_pages"], 1, pages_off, n * ps)]
+    if sect_order:
+        payload = [payload[i] for i in sect_order]
+    sh = shdr(0, 0, 0, 0) + shdr(name[".shstrtab"], 3, 0x200, len(strtab)) + b"".join(payload)
+    ident = b"\x7fELF" + bytes([2, 2 if be else 1, 1, 0]) + b"\0" * 8
+    eh = ident + struct.pack(E + "HHIQQQIHHHHHH", 4, EM[machine], 1, 0, 0, 0x40, 0, 64, 56, 0, 64, 5, 1)
+    with open(path, "wb") as f:
+        f.write(eh)
+        f.seek(0x40); f.write(sh)
+        f.seek(0x200); f.write(strtab)
+        f.seek(0x400); f.write(note)
+        f.seek(map_off)
+        if p2m:
+            f.write(b"".join(struct.pack(E + "QQ", e[0] & M64, e[1] & M64) for e in entries))
+        else:
+            f.write(b"".join(struct.pack(E + "Q", e[0] & M64) for e in entries))
+        f.write(b"\xee" * pad_entries)
+        f.seek(pages_off)
+        for i, e in enumerate(entries):
+            f.write(xc_page(i, e[0], ps))
+        f.truncate(max(f.tell(), pages_off + n * ps, pages_off))
+    return dict(pages_off=pages_off, map_off=map_off)
